@@ -445,7 +445,34 @@ func (e *sessEnv) exec(line string) (res string) {
 				return "flag=0"
 			}
 			return "flag=1"
+		case "lockwait":
+			// let saver k run on while another saver holds saveLock: it must block in Lock(), neither return nor store
+			e.meta.mu.Lock()
+			e.meta.pause = true // the next entry into metadata.Save will be this saver's, once the holder has returned
+			e.meta.mu.Unlock()
+			e.savers[k].rel <- struct{}{}
+			e.phase[k] = "released"
+			select {
+			case <-e.savers[k].done:
+				delete(e.savers, k)
+				delete(e.phase, k)
+				return "returned-without-saving"
+			case call := <-e.meta.atStore:
+				e.meta.atStore <- call
+				return "stored-while-lock-held"
+			case <-time.After(30 * time.Millisecond):
+				return "waiting"
+			}
 		case "dump":
+			if e.phase[k] == "released" {
+				// it acquired the lock the moment the holder returned and is already inside metadata.Save
+				call, err := waitCh(e.meta.atStore, "released saver at metadata.Save")
+				if err != nil {
+					return "timeout:" + err.Error()
+				}
+				e.phase[k] = ""
+				return call
+			}
 			e.meta.mu.Lock()
 			e.meta.pause = true
 			e.meta.mu.Unlock()
